@@ -1,4 +1,8 @@
 /- the list of group handlers other than the basic ones; one import + one entry per group -/
+import Driver.Scan
+import Driver.Plans
+import Driver.Order
+import Driver.Aggr
 namespace Driver
-def handlers : List (List String → Option String) := []
+def handlers : List (List String → Option String) := [handleScan, handlePlans, handleOrder, handleAggr]
 end Driver
